@@ -555,3 +555,26 @@ Proof.
     rewrite parse_ty_print; [|destruct (fi_body i); reflexivity]. cbn [bind]. destruct (fi_body i); reflexivity.
   - destruct (fi_body i) as [b|]; [|discriminate Hrb]. reflexivity.
 Qed.
+
+(* ================= no fusing: a word is never written directly against the word that follows ================= *)
+(* a token sequence starts with a word when its first token is an identifier, a literal or an interpolation *)
+Definition starts_with_word (rest : list tok) : bool :=
+  match rest with
+  | TIdent _ :: _ | TLit _ :: _ => true
+  | TPunct c :: TIdent _ :: _ => ceqb c "#"%char
+  | _ => false
+  end.
+
+(* whenever an identifier, a literal or an interpolated value is followed by a word, body_recurse writes a blank *)
+Theorem words_are_separated rest : starts_with_word rest = true ->
+  space_after_ident rest = true /\ space_after_lit rest = true /\ space_after_interp rest = true.
+Proof.
+  destruct rest as [|[s|c|l|d b] rest']; cbn [starts_with_word]; try discriminate; intros H.
+  - repeat split.
+  - destruct rest' as [|[s|c2|l|d b] r]; try discriminate H. apply ceqb_eq in H. subst c. repeat split.
+  - repeat split.
+Qed.
+
+(* and `/` `*` is never written as the comment opener *)
+Theorem slash_star_separated rest' : space_after_punct "/"%char (TPunct "*"%char :: rest') = true.
+Proof. reflexivity. Qed.
